@@ -811,7 +811,11 @@ func gmeDriverBody(variant int) func(s *vsched.Sched) *vsched.ExecOutcome {
 	return func(s *vsched.Sched) *vsched.ExecOutcome {
 		menu := gmeMenu(false)
 		s.Frozen = true
-		w := newGMEWorld(s, gmeCfg{Name: "gme-update", Init: 3, Prop: "C10"}, menu) // d:[1,2] r:[2,3]
+		init := 3 // d:[1,2] r:[2,3]
+		if variant == 5 {
+			init = 1 // d:[1,2]: both concurrent updates of variant 5 have to dial e3
+		}
+		w := newGMEWorld(s, gmeCfg{Name: "gme-update", Init: init, Prop: "C10"}, menu)
 		if !w.poisoned {
 			w.Do("poolState(e1,READY)")
 		}
@@ -825,7 +829,8 @@ func gmeDriverBody(variant int) func(s *vsched.Sched) *vsched.ExecOutcome {
 		}
 		// updates applied by the updater thread; variant 3: Close instead; variant 4: the named caller
 		// uses a name no MultiEndpoint has (routed through the default one)
-		targets := [][]int{{6}, {0}, {4, 1}, {}, {6}}[variant]
+		// variant 5: two reconfigurations overlap (each adds the pool of e3), then Close
+		targets := [][]int{{6}, {0}, {4, 1}, {}, {6}, {3}}[variant]
 		named := "r"
 		if variant == 4 {
 			named = "no-such-multiendpoint"
@@ -866,7 +871,9 @@ func gmeDriverBody(variant int) func(s *vsched.Sched) *vsched.ExecOutcome {
 					w.gme.Close()
 					return // RPCs after Close legitimately reach closed pools
 				}
-				updDone = true
+				if variant != 5 { // with a second updater still running, pools may legitimately close under an RPC
+					updDone = true
+				}
 			}),
 			s.Go("env", func() {
 				if cc := w.open["e2"]; cc != nil {
@@ -877,8 +884,28 @@ func gmeDriverBody(variant int) func(s *vsched.Sched) *vsched.ExecOutcome {
 				}
 			}),
 		}
-		s.WaitQuiescent()
 		names := []string{"rpcDefault", "rpcNamed", "updater", "env"}
+		if variant == 5 {
+			ths = append(ths, s.Go("updater2", func() { w.gme.UpdateMultiEndpoints(menu[4].build(0, 0, w.dial)) }))
+			names = append(names, "updater2")
+		}
+		s.WaitQuiescent()
+		if variant == 5 {
+			// a late RPC, then Close: nothing dialed by either update may stay open
+			updDone = true
+			ths = append(ths, s.Go("rpcLate", rpc("")))
+			names = append(names, "rpcLate")
+			s.WaitQuiescent()
+			ths = append(ths, s.Go("closer", func() { w.gme.Close() }))
+			names = append(names, "closer")
+			s.WaitQuiescent()
+			for _, cc := range vgrpc.Dialed {
+				if !cc.IsClosed() {
+					add("C16", "C16.A3", "Close left a pool open after overlapping reconfigurations", cc.Target)
+					break
+				}
+			}
+		}
 		var out []string
 		for i, th := range ths {
 			switch {
@@ -924,7 +951,7 @@ func runGMEDrivers(c *vsched.RunCtx, race bool) {
 	if c.Thorough() {
 		pre, delay = 2, 4
 	}
-	for v := 0; v < 5; v++ {
+	for v := 0; v < 6; v++ {
 		name := fmt.Sprintf("variant=%d", v)
 		if c.Replay != nil {
 			if c.Replay.Harness == "sched:gme-update" && c.Replay.Config == name {
